@@ -178,7 +178,7 @@ def oracle_steps(cases, impl):
             continue
         st, d = mon_of(tr)
         pid_cls = "C06" if info["cls"] == "mixed" else ("C05" if info["cls"] == "multi" or (info["cls"] == "rev" and info["ps"][1] == "revolve") else None)
-        if pid_cls and in_domain(info) and any(o[0] in "rlL" for o in info["ops"]):
+        if pid_cls and in_domain(info) and any(o[0] in "rlLb" for o in info["ops"]):
             # the property speaks about the forward total of a full pass: valid parameters that give no complete pass (an exception at
             # construction or at a request, before the first EndReverse) perform no optimal pass at all
             exc = tr[0] if tr[0].startswith("CTOR EXC") else next((o for k, o, _ in (parse_line(l) for l in tr if l.startswith("N ")) if o.startswith("EXC")), None)
@@ -336,7 +336,7 @@ def oracle_finalize(cases, impl):
         if not tr or tr[0].startswith("CTOR"):
             continue
         # second pass with op alignment: ops and N/F lines correspond one to one unless a run op is present
-        if any(o[0] == "r" for o in info["ops"]):
+        if any(o[0] in "rlLb" for o in info["ops"]):
             continue
         lines = [l for l in tr if l[0] in "NF" and l[1] == " "]
         state = parse_line(tr[0])[2]
@@ -625,7 +625,7 @@ def oracle_passes(cases, impl):
         else:
             # a stream of valid parameters that breaks off with an exception: the forward never reaches EndForward, or an adjoint
             # calculation stops above step 0 -- steps that are never reversed
-            if in_domain(info) and any(o[0] in "rlL" for o in info["ops"]):
+            if in_domain(info) and any(o[0] in "rlLb" for o in info["ops"]):
                 exc = next(((i, o) for i, (k, o, _) in enumerate(parse_line(l) for l in tr if l.startswith("N ")) if o.startswith("EXC")), None)
                 if exc is not None:
                     where = "before EndForward" if not seen_ef else ("in adjoint calculation %d with the adjoint at step %s: steps below it are never reversed" % (npass + 1, pos))
@@ -872,7 +872,7 @@ def oracle_twolevel(cases, impl):
         bad = None
         # an adjoint pass of valid parameters that breaks off with an exception recomputes no block (or not all of them) at all
         exc = next((o for k, o, _ in (parse_line(l) for l in tr if l.startswith("N ")) if o.startswith("EXC")), None)
-        if exc and in_domain(info) and any(o[0] in "rlL" for o in info["ops"]):
+        if exc and in_domain(info) and any(o[0] in "rlLb" for o in info["ops"]):
             out.append(fail("C13", info, line, "pass %d breaks off with %s after %d action(s): its period blocks are not recomputed" % (len(passes) + 1, exc, len(cur)), "broken_off"))
             continue
         for pi, ps in enumerate(passes):
